@@ -54,6 +54,9 @@ def _chunk(args):
       continue
     mjd = mujoco.MjData(mjm)
     mujoco.mj_kinematics(mjm, mjd)
+    if c["pose"] == "engulfed" and collide.ill_conditioned(mjm, mjd):
+      out.append(("skip", "ill_conditioned_engulfed", None))
+      continue
     d = mjw.make_data(mjm, nworld=2, nconmax=32)
     mjw.kinematics(m, d)
     mjw.collision(m, d)
